@@ -31,3 +31,11 @@ Proof.
   unfold items_total. pose proof (list_sum_upd nitems sc m rest [] Hm) as H. rewrite En in H.
   unfold nitems at 2 in H. cbn [filter] in H. destruct (answer x); cbn [length] in H; fold (nitems rest) in H; lia.
 Qed.
+Lemma pop_at_other sc m j : j <> m -> nth j (snd (pop_at sc m)) [] = nth j sc [].
+Proof. intros H. unfold pop_at. destruct (nth m sc []); cbn [snd]; [reflexivity|]. apply nth_upd_other. auto. Qed.
+Lemma pop_at_self sc m : nitems (nth m (snd (pop_at sc m)) []) + (match answer (fst (pop_at sc m)) with AItem _ => 1 | _ => 0 end) = nitems (nth m sc []).
+Proof.
+  unfold pop_at. destruct (nth m sc []) as [|x rest] eqn:En; cbn [fst snd answer]; [rewrite En; lia|].
+  assert (Hm : m < length sc) by (destruct (Nat.lt_ge_cases m (length sc)); auto; rewrite nth_overflow in En by assumption; discriminate).
+  rewrite nth_upd_same by exact Hm. unfold nitems at 2. cbn [filter]. destruct (answer x); cbn [length]; fold (nitems rest); lia.
+Qed.
